@@ -255,8 +255,13 @@ class FixedWindowPolicy:
         return self._window_size
 
     def _get_window_start(self, now: Instant) -> Instant:
-        now_s = now.to_seconds()
-        return Instant.from_seconds((now_s // self._window_size) * self._window_size)
+        # Integer nanosecond arithmetic. The window length at clock resolution is the
+        # same truncation that ``start + window_size`` applies in time_until_available,
+        # so the window that try_acquire decides on and the reported wait always agree
+        # (float floor division, e.g. 0.3 // 0.1 == 2.0, put boundary instants into the
+        # previous window while time_until_available already reported zero wait).
+        window_ns = int(self._window_size * 1_000_000_000)
+        return Instant((now.nanoseconds // window_ns) * window_ns)
 
     def _maybe_reset(self, now: Instant) -> None:
         ws = self._get_window_start(now)
